@@ -11,6 +11,12 @@ def groups():
                    what='cstl_fls(x) for every 64-bit x: -1 for 0, else the index r < 64 of the highest set bit (x >> r == 1); '
                         'this is what cstl_heap_find uses to locate a node from its level-order number',
                    scope='all inputs; loop (6 iterations) closed by unwinding with unwinding assertion'))
+    # P: arithmetic of the node lookup.  FINDING on the pinned tree: `1 << cstl_fls(loc)` is a signed int shift, undefined for
+    # loc >= 2^31 (heap size >= 2^31); the obligation cstl_heap_find.overflow.1 fails with id = 2147483647 (replay: UBSan).
+    G.append(Group('heap.find.arith', ['C07'], 'P', S, 'h_find', sources=src, defines=['-DVF_FIND'], unwind=8, replay=True, malloc_fail=False,
+                   what='cstl_heap_find: turning a level-order number into the descent bit mask is defined for every number 0..2^32-2 '
+                        '(no signed overflow / undefined shift), which is what "located from the size alone" needs at every size',
+                   scope='all node numbers id with id + 1 <= UINT_MAX; empty tree, so only the index arithmetic is exercised'))
     # S: the only relinking primitive, explicit neighbourhood
     G.append(Group('heap.step.promote', ['C07'], 'S', S, 'h_step', sources=src, defines=['-DVF_STEP=1'], unwind=4, replay=True,
                    what='cstl_heap_promote_child on an explicit neighbourhood (grandparent or root slot, parent, child as left or right child, '
